@@ -8,8 +8,12 @@ STEP_TYPES = ("given", "when", "then", "and", "but")
 STRUCT = {"F": "feature", "R": "rule", "B": "background", "S": "scenario", "O": "scenario_outline", "E": "examples"}
 QUOTES = {"dq": '"""', "sq": "'''"}
 WORDS = ["alpha", "beta", "gamma", "delta", "omega", "kappa", "sigma", "theta", "lambda", "zeta", "eta", "iota",
-         "Über", "naïve", "données", "שלום", "мир", "数据", "テスト", "ok", "v2", "x_y", "a-b", "n=1", "(paren)", "50%"]
-UNKNOWN_LANGUAGE = "xx-nolang"
+         "Über", "naïve", "données", "שלום", "мир", "数据", "テスト", "ok", "v2", "x_y", "a-b", "n=1", "(paren)", "50%",
+         # texts that are hostile to string formatting of messages that embed them
+         "{x}", "{", "}", "{0}", "{{", "%s", "%(a)s", "{x!r:>3}", "\\d+"]
+UNKNOWN_LANGUAGES = ["xx-nolang", "{de}", "{0}", "{", "%s", "zz"]
+BAD_TAG_WORDS = ["oops", "{slow}", "{", "}x", "{0}", "{{", "%s", "no-at-sign"]
+TAG_STEMS = ["t", "wip", "slow.x", "a-b", "issue=", "Ü", "{x}", "{", "}", "%s"]
 
 
 def languages():
@@ -110,7 +114,7 @@ class Texts(object):
             n = self.rnd.randint(1, 3)
             ws = [self.rnd.choice(WORDS) for _ in range(n)]
             if kind == "tag":
-                t = u"%s%d" % (self.rnd.choice(["t", "wip", "slow.x", "a-b", "issue=", "Ü"]), self.counter)
+                t = u"%s%d" % (self.rnd.choice(TAG_STEMS), self.counter)
             elif kind == "cell":
                 t = u" ".join(ws) + u"%d" % self.counter
                 if self.rnd.random() < 0.3:
@@ -163,14 +167,14 @@ def to_text(ln, l1, l2, texts, rnd):
         gap = ln.get("gap", u" ")
         s = gap.join(words)
         if a == "bad":
-            s += u" oops"
+            s += u" " + rnd.choice(BAD_TAG_WORDS)
         elif a == "cmt":
             s += u"  # comment @nota tag"
         return pad + s, 0
     if c == "#":
         return pad + (texts.get(ps[0], "comment") if ps else u"# note"), 0
     if c == "Lang":
-        name = UNKNOWN_LANGUAGE if a == "unknown" else (l2.name if ln.get("lg", 1) == 2 else l1.name)
+        name = rnd.choice(UNKNOWN_LANGUAGES) if a == "unknown" else (l2.name if ln.get("lg", 1) == 2 else l1.name)
         return pad + ln.get("hdr", u"# language: ") + name, 0
     if c == "_":
         return ln.get("blank", u""), 0
